@@ -26,7 +26,7 @@ func runC19(c *Ctx) {
 	c.rule("decoder-lowers", "every word appended by a decoder is the result of strings.ToLower, of the initialism extractor (which lower-cases), or a substring whose every rune was validated lower-case/digit", 8)
 	c.rule("skip-matches-width", "after a separator the next word starts at key + 1 for an ASCII separator constant, or key + utf8.RuneLen(separator) for the parameterised decoder; at an upper-case boundary it starts at the key itself", 4)
 	c.rule("initialism-table", "the initialism table consists of non-empty, upper-case constants assigned once, and every scan of it is complete (no early exit that depends on the table's order)", 2)
-	c.rule("initialism-longest", "wherever a word is cut after a table entry (s[len(x):]) the entry is the longest candidate: candidates come sorted by descending length and are taken from the front (or the scan is first-match over a table in which no entry is preceded by a proper prefix of it); the recursive split backs off to shorter candidates", 3)
+	c.rule("initialism-longest", "wherever a word is cut after a table entry (s[len(x):]) the entry is the longest candidate: candidates come sorted by descending length and are taken from the front (or the scan is first-match over a table in which no entry is preceded by a proper prefix of it); the recursive split backs off to shorter candidates, and the greedy cut is only a fallback after the complete split failed", 4)
 	c.rule("no-text-dropped", "in every decoder loop the word boundary (the index the next word starts at) only advances on paths that have emitted the pending text s[boundary:key], or on which boundary < key is false (nothing pending)", 5)
 	c.rule("upper-words-extracted", "in the Go-identifier decoder a word is lower-cased whole only under word != strings.ToUpper(word); all-upper-case words go through the initialism extractor", 2)
 
@@ -384,6 +384,26 @@ func c19Initialisms(c *Ctx, pkg string) {
 		}
 		c.check(okScan, "initialism-table", "complete-scan@"+relName(f), f.Pos(), "every pass compares the string with every table entry", "the scan of the initialism table in "+relName(f)+" can stop early (the result would depend on the order of the table, which is not sorted)")
 	}
+	recursive := map[*ssa.Function]bool{}
+	defer func() {
+		// the greedy (non-recursive) consumption is only a fallback: it is dominated by a failed complete split of the same word
+		for _, st := range sites {
+			if st.po.Kind != "collector" || recursive[origin(st.f)] || len(recursive) == 0 {
+				continue
+			}
+			okF := false
+			for _, ec := range condsDominating(st.sl.Block()) {
+				if ex, ok := ec.Cond.(*ssa.Extract); ok && !ec.Val && ex.Index == 1 {
+					if call, ok := ex.Tuple.(*ssa.Call); ok && staticCallee(call) != nil && recursive[origin(staticCallee(call))] {
+						if p, ok := call.Call.Args[0].(*ssa.Parameter); ok && p.Parent() == st.f {
+							okF = true
+						}
+					}
+				}
+			}
+			c.check(okF, "initialism-longest", relName(st.f)+"#fallback-only", st.sl.Pos(), "the greedy cut is reached only after the complete split of the whole word failed", "the greedy longest-prefix cut can be reached without the complete (backing-off) split having been tried on the whole word: adjacent initialisms such as HTTP+SQL become https, ql")
+		}
+	}()
 	// the complete split is tried with back-off: in the function that recurses on s[len(x):], the loop over candidates is left only by the successful return
 	for _, st := range sites {
 		if st.po.Kind != "collector" {
@@ -418,6 +438,7 @@ func c19Initialisms(c *Ctx, pkg string) {
 				okB = false
 			}
 		}
+		recursive[origin(st.f)] = true
 		c.check(okB && n > 0, "initialism-longest", relName(st.f)+"#backoff", st.f.Pos(), "the loop over candidate prefixes is left only by the return under the recursive call's ok: a candidate whose rest cannot be split is abandoned for the next shorter one", "the split of a run of initialisms does not back off to a shorter candidate when the rest cannot be split (HTTPSQL would become https, ql)")
 	}
 }
